@@ -308,7 +308,11 @@ func runRange(bo buildOut, m meta, tier string, seed int64, from, to int, tag st
 		cmd.Env = append(os.Environ(), "GOTRACEBACK=all", "GOMAXPROCS="+envOr("VERIF_WORKER_PROCS", "2"))
 		if bo.race {
 			cmd.Env = append(cmd.Env, "GORACE=halt_on_error=0 log_path="+base+".race")
-			cmd.Env = append(cmd.Env, "GOMAXPROCS=16")
+			if m.ID == "C06" {
+				cmd.Env = append(cmd.Env, "GOMAXPROCS=16")
+			} else {
+				cmd.Env = append(cmd.Env, "GOMAXPROCS=4")
+			}
 		}
 		// pipe for the step-budget hook (fd 3)
 		cmd.ExtraFiles = []*os.File{ef}
@@ -466,7 +470,9 @@ func getMeta(worker, id, tier string, seed int64) meta {
 	return m
 }
 
-var raceProps = map[string]bool{"C06": true}
+// C06 evaluates on 16 goroutines per worker.  C11's workers are sequential themselves: the detector is there for
+// goroutines that the compiler might start (a compilation whose outcome depends on a schedule is not deterministic).
+var raceProps = map[string]bool{"C06": true, "C11": true}
 
 func needsRace(id, tier string) bool {
 	return raceProps[id]
@@ -535,7 +541,7 @@ func run(id, tier string) int {
 			nw = n
 		}
 	}
-	if race {
+	if race && id == "C06" {
 		nw = 4 // each racing worker uses 16 goroutines itself
 	}
 	bs := m.BlockSize
